@@ -151,8 +151,17 @@ class ObjectiveTasksStartLatest(Objective):
         )
 
         # compute the minimum of start times for all tasks
+        # an optional task that is not scheduled is parked at a negative date, it must
+        # not be taken for the earliest task: the horizon is used instead
+        horizon = processscheduler.base.active_problem._horizon
         assertions = get_minimum(
-            smallest_start_time, [task._start for task in list_of_tasks]
+            smallest_start_time,
+            [
+                z3.If(task._scheduled, task._start, horizon)
+                if task.optional
+                else task._start
+                for task in list_of_tasks
+            ],
         )
         mini_start_time_indicator.append_z3_list_of_assertions(assertions)
 
